@@ -59,12 +59,13 @@ S_root   == <<DOT>>                                   \* .
 S_d      == <<DOT, SL, 100>>                          \* ./d
 S_dsp    == <<DOT, SL, 100, BS, 48, 52, 48, 101>>     \* ./d\040e     -> "./d e"
 S_deep   == <<DOT, SL, 100, SL, 101>>                 \* ./d/e
+S_d1     == <<DOT, SL, 100, 49>>                      \* ./d1         (its name extends ./d: Extract("./d") must leave it alone)
 
 NamesAlign  == {T_a}
 NamesAlign2 == {T_a, T_b}
 NamesAll    == {T_a, T_sp, T_bsoct, T_colon, T_colesc, T_sub, T_hi, T_hiesc, T_lone, T_bs2, T_dotted}
 StreamsOne  == {S_root}
-StreamsAll  == {S_root, S_d, S_dsp, S_deep}
+StreamsAll  == {S_root, S_d, S_dsp, S_deep, S_d1}
 StreamsTwo  == {S_root, S_d}
 PlainAll    == {Unescape(t) : t \in NamesAll \cup StreamsAll} \cup
                { <<97, 9, 98>>, <<97, 10, 98>>, <<BS>>, <<BS, 52, 48, 48>>, <<97, BS, 48, 52, 48>>, <<255, 0, 1>>,
